@@ -13,7 +13,7 @@ Definition lit (x : string) : str := map N_of_ascii (list_ascii_of_string x).
 Inductive ty := TObject | TInt | TBool | TStr | TTuple | TList | TSet | TFloat | TType | TNoneT | TUser (c : N).
 Inductive const := CBool (b : bool) | CInt (z : Z) | CStr (s : str) | CNone | CNaN.
 Inductive meth := Startswith | Endswith.
-Inductive builtin := BIsinstance | BIssubclass | BHasattr | BCallable | BAny | BAll | BSum | BMin | BMax | BSet | BLen.
+Inductive builtin := BIsinstance | BIssubclass | BHasattr | BCallable | BAny | BAll | BSum | BMin | BMax | BSet | BLen | BBool.
 Inductive bop := BOr | BAnd.
 
 Inductive expr :=
@@ -45,7 +45,7 @@ Definition meth_eqb (a b : meth) : bool := match a, b with Startswith, Startswit
 Definition builtin_eqb (a b : builtin) : bool :=
   match a, b with
   | BIsinstance, BIsinstance | BIssubclass, BIssubclass | BHasattr, BHasattr | BCallable, BCallable | BAny, BAny | BAll, BAll
-  | BSum, BSum | BMin, BMin | BMax, BMax | BSet, BSet | BLen, BLen => true
+  | BSum, BSum | BMin, BMin | BMax, BMax | BSet, BSet | BLen, BLen | BBool, BBool => true
   | _, _ => false
   end.
 Definition ty_eqb (a b : ty) : bool :=
@@ -95,7 +95,7 @@ Definition pp_builtin (f : builtin) : str :=
   match f with
   | BIsinstance => lit "isinstance" | BIssubclass => lit "issubclass" | BHasattr => lit "hasattr" | BCallable => lit "callable"
   | BAny => lit "any" | BAll => lit "all" | BSum => lit "sum" | BMin => lit "min" | BMax => lit "max" | BSet => lit "set"
-  | BLen => lit "len"
+  | BLen => lit "len" | BBool => lit "bool"
   end.
 Definition pp_bop (o : bop) : str := match o with BOr => lit " or " | BAnd => lit " and " end.
 Definition paren (p : bool) (s : str) : str := if p then 40%N :: s ++ [41%N] else s.
@@ -130,6 +130,9 @@ Fixpoint pp (e : expr) : str :=
   | EFloorDiv l r => 40%N :: pp l ++ lit " // " ++ pp r ++ [41%N]
   | EJuxt n a => let s := pp a in N.iter n (fun acc => acc ++ s) (s ++ s)
   end.
+
+(** the content of 2+n adjacent copies of the literal "s" *)
+Definition juxt_text (n : N) (s : str) : str := N.iter n (fun acc => acc ++ s) (s ++ s).
 
 (** * The tree CPython parses from [pp e] *)
 Inductive tok := TAtom (e : expr) | TOp (o : bop) | TNot | TCmp (c : cmpop) | TDiv.
@@ -191,7 +194,10 @@ Fixpoint toks (e : expr) : list tok :=
   | EListComp elt x it => [TAtom (EListComp (parse_disj (toks elt)) x (parse_disj (toks it)))]
   | EGen _ elt x it => [TAtom (EGen true (parse_disj (toks elt)) x (parse_disj (toks it)))]
   | EFloorDiv l r => [TAtom (parse_disj (toks l ++ TDiv :: toks r))]
-  | EJuxt n a => [TAtom (EJuxt n (parse_disj (toks a)))]
+  | EJuxt n a => match a with
+                 | EConst (CStr s) => [TAtom (EConst (CStr (juxt_text n s)))]   (* adjacent string literals are one literal *)
+                 | _ => [TAtom (EJuxt n (parse_disj (toks a)))]
+                 end
   end.
 Definition norm (e : expr) : expr := parse_disj (toks e).
 
@@ -236,7 +242,7 @@ Fixpoint paren_safe_at (top : bool) (e : expr) : bool :=
                         match rs with [] => true | (_, b) :: t => closed b && paren_safe_at false b && go t end) rest
   | EListComp elt _ it | EGen _ elt _ it => paren_safe_at true elt && paren_safe_at true it
   | EFloorDiv l r => closed l && closed r && paren_safe_at false l && paren_safe_at false r
-  | EJuxt _ a => paren_safe_at true a
+  | EJuxt _ _ => false          (* implicit concatenation: the printed text does not parse back to this tree *)
   end.
 Definition paren_safe (e : expr) : bool := paren_safe_at true e.
 
@@ -295,6 +301,7 @@ Fixpoint wf (e : expr) : bool :=
                         match rs with [] => true | (_, b) :: t => wf b && gen_par b && negb (starts_with_not b) && go t end) rest
   | EListComp elt _ it | EGen _ elt _ it => wf elt && gen_par elt && wf it && gen_par it
   | EFloorDiv l r => wf l && gen_par l && wf r && gen_par r && negb (starts_with_not r)
+  | EJuxt _ (EConst (CStr s)) => forallb safe_char s     (* "s" "s": implicit string concatenation *)
   | EJuxt _ _ => false
   end.
 
@@ -323,7 +330,7 @@ Fixpoint names (e : expr) : list str :=
                end
   end.
 Definition builtin_names : list str :=
-  map pp_builtin [BIsinstance; BIssubclass; BHasattr; BCallable; BAny; BAll; BSum; BMin; BMax; BSet; BLen].
+  map pp_builtin [BIsinstance; BIssubclass; BHasattr; BCallable; BAny; BAll; BSum; BMin; BMax; BSet; BLen; BBool].
 
 Fixpoint size (e : expr) : nat :=
   let sz := fix sz (es : list expr) : nat := match es with [] => O | a :: t => size a + sz t end in
